@@ -1,6 +1,12 @@
 mod c52;
+mod c53;
+mod c56;
 use vkit::{Check, Level};
 fn main() {
-    let checks: &[Check] = &[Check { id: "C52", level: Level::Exploration, run: c52::run }];
+    let checks: &[Check] = &[
+        Check { id: "C52", level: Level::Exploration, run: c52::run },
+        Check { id: "C53", level: Level::Exploration, run: c53::run },
+        Check { id: "C56", level: Level::Exploration, run: c56::run },
+    ];
     vkit::main(checks);
 }
